@@ -18,12 +18,15 @@ Scn   == TFile.scn
 
 MCKeyConvOf(kt, tok) == IF <<kt, tok>> \in DOMAIN KeyTab THEN KeyTab[<<kt, tok>>]
                         ELSE [ok |-> FALSE, v |-> ""]
-MCConvOf(dt, text)   == IF dt \in {"string", "null"} THEN [ok |-> TRUE, v |-> "'" \o text \o "'"]
+MCConvOf(dt, text)   == IF dt = "boomkey" THEN (IF text = "BOOM" THEN [ok |-> FALSE, v |-> "~fault~"]
+                                               ELSE [ok |-> TRUE, v |-> "'" \o text \o "'"])
+                        ELSE IF dt \in {"string", "null"} THEN [ok |-> TRUE, v |-> "'" \o text \o "'"]
                         ELSE IF <<dt, text>> \in DOMAIN ConvTab THEN ConvTab[<<dt, text>>]
                         ELSE [ok |-> FALSE, v |-> ""]
 MCSecConvOf(dt, sv)  == CASE dt = "null"   -> [ok |-> TRUE, v |-> sv]
                           [] dt = "wrap"   -> [ok |-> TRUE, v |-> [wrapped |-> sv]]
                           [] dt = "reject" -> [ok |-> FALSE, v |-> sv]
+                          [] dt = "boom"   -> [ok |-> FALSE, v |-> sv]
 MCResLines(rid)      == TFile.res[rid]
 MCResolve(rid, arg)  == LET k == rid \o "|" \o arg
                         IN  IF k \in DOMAIN TFile.resolve THEN TFile.resolve[k] ELSE ""
@@ -33,4 +36,5 @@ MCScnMain(i)         == Scn[i].main
 MCScnOpts(i)         == Scn[i].opts
 MCScnTwin(i)         == Scn[i].twin
 MCScnCulprit(i)      == Scn[i].culprit
+MCScnFault(i)        == Scn[i].fault
 =========================================================================
